@@ -970,7 +970,8 @@ def result_consumers(fn, call, depth=0):
             elif u[0] == "stmt":
                 dst, rv = u[2], u[3]
                 if rv[0] == "discr":
-                    tags.add("match")
+                    if not fn.local_ty(l).startswith("std::task::Poll<"):
+                        tags.add("match")
                 elif rv[0] in ("use", "ref", "cast", "agg", "raw"):
                     if "|" in dst:
                         tags.add("stored")
@@ -981,6 +982,8 @@ def result_consumers(fn, call, depth=0):
             elif u[0] == "call":
                 c = u[1]
                 nm = c.name.rsplit("::", 1)[-1]
+                if c.callee.endswith("Future::poll") or c.callee.endswith("IntoFuture::into_future"):
+                    nm = c.callee.rsplit("::", 1)[-1]
                 if c.is_("Try::branch") or nm == "branch":
                     tags.add("try")
                 elif nm in ("into_future", "poll", "new_unchecked", "get_context", "deref", "deref_mut", "as_mut", "as_ref", "borrow", "borrow_mut"):
